@@ -262,11 +262,13 @@ def check(rep, args):
     for cfg in configs:
         rep.guard(check_config, rep, facts.program(cfg))
         rep.guard(sector_rules, rep, facts.program(cfg))
+        from .rules_C16_int import int_panic_rules
+        rep.guard(int_panic_rules, rep, facts.program(cfg))
     cov = {
         "explanation": "symbolic interpretation of the packing, channel-plumbing, clamping and saturating colour functions on symbolic channels",
         "evaluations": len(rep.instances),
         "distinct_nontrivial": len({i["what"] for i in rep.instances}),
-        "rules": ["K1", "K2", "K3", "K4", "K5", "K6"],
+        "rules": ["K1", "K2", "K3", "K4", "K5", "K6", "K7"],
     }
     return "other", cov, ["`as u8` from float saturates and maps NaN to 0 (language semantics)",
                           "HSL<->RGB round-trip accuracy, in-range results and hue wrap are numeric and not decided"]
